@@ -187,12 +187,33 @@ def _rowgroupby(ctx, rep):
     g = [n for n in own_nodes(fn.node) if isinstance(n, ast.Call) and norm(n.func) in ('groupby', 'itertools.groupby')]
     if len(g) != 1:
         raise AnalysisError('anchor vanished: groupby call in rowgroupby')
-    ok = [norm(a) for a in g[0].args] == ['it'] and any(k.arg == 'key' and norm(k.value) == 'getkey' for k in g[0].keywords)
-    getkeys = [n for n in own_nodes(fn.node) if isinstance(n, ast.Assign) and norm(n.targets[0]) == 'getkey']
-    vals = sorted(norm(n.value) for n in getkeys)
-    ok = ok and vals == ['comparable_itemgetter(*kindices)', 'key']
-    kind = [n for n in own_nodes(fn.node) if isinstance(n, ast.Assign) and norm(n.targets[0]) == 'kindices']
-    ok = ok and len(kind) == 1 and norm(kind[0].value) == 'asindices(hdr, key)'
+    # the key function handed to groupby, whatever the locals are called: every binding of it is either the caller's
+    # callable `key` or comparable_itemgetter(*X) with X = asindices(<header>, key)
+    kw = [k.value for k in g[0].keywords if k.arg == 'key'] + list(g[0].args[1:2])
+    ok = len(kw) == 1 and isinstance(kw[0], ast.Name)
+    vals = []
+    if ok:
+        kname = kw[0].id
+        binds = [n for n in own_nodes(fn.node) if isinstance(n, ast.Assign) and any(norm(t) == kname for t in n.targets)]
+        ok = bool(binds)
+        for b in binds:
+            v = b.value
+            vals.append(norm(v))
+            if isinstance(v, ast.Name) and v.id == 'key':
+                continue
+            good = False
+            if isinstance(v, ast.Call) and norm(v.func) == 'comparable_itemgetter' and len(v.args) == 1 and \
+                    isinstance(v.args[0], ast.Starred):
+                inner = v.args[0].value
+                srcs = [inner]
+                if isinstance(inner, ast.Name):
+                    srcs = [n.value for n in own_nodes(fn.node) if isinstance(n, ast.Assign) and
+                            any(norm(t) == inner.id for t in n.targets)]
+                good = bool(srcs) and all(isinstance(x, ast.Call) and norm(x.func) == 'asindices' and len(x.args) == 2 and
+                                          norm(x.args[1]) == 'key' for x in srcs)
+            if not good:
+                ok = False
+    vals = sorted(vals)
     if ok:
         rep.held('R9.2', fn, 'groupby(it, key=getkey)', 'Comparable key over the key fields, or the caller\'s callable', g[0])
     else:
